@@ -376,6 +376,13 @@ def check_snippet(recs, src: Src, span, label, out, st):
         else:
             idx, rest = label_region
             words = (rest + " " + " ".join(r.content for r in recs[idx + 1:] if r.num is None)).split()
+        if match_words(label.split(), words) is not None:
+            # the statement does not say where a label goes: also accept it anywhere in
+            # the non-source lines of its snippet
+            anywhere = " ".join(r.content for r in recs if r.num is None).split()
+            if match_words(label.split(), anywhere) is None:
+                st["label_found_elsewhere_in_snippet"] += 1
+                words = anywhere
         check_text("label", label, words, out)
 
 
@@ -418,7 +425,8 @@ def new_stats():
         "snippets_checked", "snippets_indent_stripped", "context_lines_shown",
         "uncovered_end_line_absent", "marker_runs_exact", "middle_lines_shown",
         "middle_lines_elided", "render_raised", "rendered_ok", "nonempty_primary_span",
-        "multiline_spans", "empty_spans", "with_children", "empty_child_span_not_shown")}
+        "multiline_spans", "empty_spans", "with_children", "empty_child_span_not_shown",
+        "label_found_elsewhere_in_snippet")}
 
 
 def evaluate(case, st=None):
@@ -737,7 +745,7 @@ def units(tier):
                 ((0, 0), ((4, 70), (12, 1))), ((0, 0), ((20, 1), (20, 10))),
                 ((0, 0), ((0, 10), (4, 10), (0, 10))), ((0, 0), ((20, 70), (20, 10), (20, 70))),
                 ((8, 20), ((20, 10), (20, 10)))]
-        b2src = bsrc[1:4] + bsrc[7:]
+        b2src = [bsrc[1], bsrc[3], bsrc[7]]
     else:
         bsrc = [((0, 0), ls) for n in (1, 2) for ls in itertools.product(line_options("quick"), repeat=n)]
         bsrc += [((0, 0), ((0, 10), (4, 10), (0, 10))), ((0, 0), ((20, 70), (20, 10), (20, 70))),
